@@ -3,7 +3,9 @@
 mod ops_bits;
 #[path = "../ops_cmp.rs"]
 mod ops_cmp;
+#[path = "../ops_norm.rs"]
+mod ops_norm;
 
 fn main() {
-    verif_harness::run_main(&[ops_bits::dispatch, ops_cmp::dispatch]);
+    verif_harness::run_main(&[ops_bits::dispatch, ops_cmp::dispatch, ops_norm::dispatch]);
 }
